@@ -305,22 +305,31 @@ func snapshotRule(c *Check, b *ssa.Function, _ []mopLite, overall, ready, notRea
 	c.Cond(ko.K == "param", "flag-and-status-agree", name+": status stored under the component's key", p.InstrPos(upd), "key is the callback's key", "status stored under "+trimOrg(ko.String()))
 	agree := true
 	whyA := ""
-	switch v := upd.Value.(type) {
-	case *ssa.Phi:
-		for i, e := range v.Edges {
-			s, ok := constStr(e)
-			if !ok {
+	sawReady, sawNot := false, false
+	var upds []*ssa.MapUpdate
+	allInstrs(cb, func(in ssa.Instruction) {
+		if mu, ok := in.(*ssa.MapUpdate); ok {
+			upds = append(upds, mu)
+		}
+	})
+	for _, mu := range upds {
+		var own []Atom
+		for _, g := range GuardsOf(mu) {
+			own = append(own, atomsOf(g))
+		}
+		for _, alt := range condAlts(mu.Value, 0) {
+			sv := ""
+			if alt.K != nil && alt.K.Value != nil && alt.K.Value.Kind() == constant.String {
+				sv = constant.StringVal(alt.K.Value)
+			} else {
 				agree = false
-				whyA = "status is not a constant per path"
+				whyA = "per-component status is not chosen by the test of the component's value"
 				continue
 			}
-			pred := v.Block().Preds[i]
-			last := pred.Instrs[len(pred.Instrs)-1]
-			f, t := guardFalse(last)
-			// edge taken directly from the test of the component's value
-			if iff, ok := last.(*ssa.If); ok && pred.Succs[0] != pred.Succs[1] {
-				a := atomsOf(Guard{If: iff, Cond: iff.Cond, True: pred.Succs[0] == v.Block()})
-				if a.V == ssa.Value(valueParam) {
+			// polarity of the component's value on this alternative
+			t, f := false, false
+			for _, a := range append(append([]Atom{}, own...), alt.Conds...) {
+				if strip(a.V) == ssa.Value(valueParam) {
 					if a.Pos {
 						t = true
 					} else {
@@ -328,26 +337,28 @@ func snapshotRule(c *Check, b *ssa.Function, _ []mopLite, overall, ready, notRea
 					}
 				}
 			}
-			inFalseBlock := pred == falseStore.Block() || falseStore.Block().Dominates(pred)
-			switch s {
+			switch sv {
 			case notReady:
-				if !(f && inFalseBlock) {
+				sawNot = true
+				if !f || t {
 					agree = false
-					whyA = "'" + notReady + "' is assigned on a path that does not clear the overall flag"
+					whyA = "'" + notReady + "' is assigned on a path where the component's value is not known to be false"
 				}
 			case ready:
-				if !t || inFalseBlock {
+				sawReady = true
+				if !t || f {
 					agree = false
 					whyA = "'" + ready + "' is assigned on a path where the component's value is not known to be true (or where the flag is cleared)"
 				}
 			default:
 				agree = false
-				whyA = "unexpected status constant " + s
+				whyA = "unexpected status constant " + sv
 			}
 		}
-	default:
+	}
+	if agree && !(sawReady && sawNot) {
 		agree = false
-		whyA = "per-component status is not chosen by the test of the component's value"
+		whyA = "the callback does not record both statuses"
 	}
 	c.Cond(agree, "flag-and-status-agree", name+": status and flag on the same edge", p.InstrPos(upd), "not-ready status and flag clearing share the value==false edge; ok status on the value==true edge", whyA)
 	// full sweep
@@ -376,22 +387,34 @@ func snapshotRule(c *Check, b *ssa.Function, _ []mopLite, overall, ready, notRea
 			whyO = "the builder stores a computed key outside the sweep"
 			return
 		}
-		nover++
-		vs, isV := constStr(mu.Value)
-		var flagTrue, flagFalse bool
+		var own []Atom
 		for _, g := range GuardsOf(mu) {
-			a := atomsOf(g)
-			if u, ok := a.V.(*ssa.UnOp); ok && cellOf(r, u) == flag {
-				if a.Pos {
-					flagTrue = true
-				} else {
-					flagFalse = true
+			own = append(own, atomsOf(g))
+		}
+		if !dominatesInstr(it, mu) {
+			okOver = false
+			whyO = "the overall entry is stored before the sweep"
+		}
+		for _, alt := range condAlts(mu.Value, 0) {
+			nover++
+			vs := ""
+			if alt.K != nil && alt.K.Value != nil && alt.K.Value.Kind() == constant.String {
+				vs = constant.StringVal(alt.K.Value)
+			}
+			var flagTrue, flagFalse bool
+			for _, a := range append(append([]Atom{}, own...), alt.Conds...) {
+				if u, ok := strip(a.V).(*ssa.UnOp); ok && cellOf(r, u) == flag {
+					if a.Pos {
+						flagTrue = true
+					} else {
+						flagFalse = true
+					}
 				}
 			}
-		}
-		if !isV || !((vs == ready && flagTrue) || (vs == notReady && flagFalse)) || !dominatesInstr(it, mu) {
-			okOver = false
-			whyO = fmt.Sprintf("overall entry %q is not selected by the flag computed in the sweep", vs)
+			if !((vs == ready && flagTrue && !flagFalse) || (vs == notReady && flagFalse && !flagTrue)) {
+				okOver = false
+				whyO = fmt.Sprintf("overall entry %q is not selected by the flag computed in the sweep", vs)
+			}
 		}
 	})
 	c.Cond(okOver && nover == 2, "overall-from-flag", name+": overall entry", p.Pos(b.Pos()), "'ok' when the flag stayed true, 'not-ready' when it was cleared, after the sweep", "the overall entry is not derived from the flag of the same sweep: "+whyO)
@@ -459,50 +482,54 @@ func handlerRule(c *Check, h, builder *ssa.Function, _ []mopLite, overall, ready
 		if !ok || !cl.Common().IsInvoke() || cl.Common().Method.Name() != "WriteHeader" {
 			return
 		}
-		k, isC := cl.Call.Args[0].(*ssa.Const)
-		if !isC {
-			okCode = false
-			why = "status code is computed"
-			return
-		}
-		code := k.Int64()
-		// guard: lookup(m, overall) == ready
-		var pos, found bool
+		var own []Atom
 		for _, g := range GuardsOf(cl) {
-			a := atomsOf(g)
-			b, ok := a.V.(*ssa.BinOp)
-			if !ok || (b.Op != token.EQL && b.Op != token.NEQ) {
-				continue
-			}
-			var lk *ssa.Lookup
-			var cst ssa.Value
-			if l, ok := b.X.(*ssa.Lookup); ok {
-				lk, cst = l, b.Y
-			} else if l, ok := b.Y.(*ssa.Lookup); ok {
-				lk, cst = l, b.X
-			}
-			if lk == nil || lk.X != ssa.Value(m) {
-				continue
-			}
-			ks, _ := constStr(lk.Index)
-			cs, _ := constStr(cst)
-			if ks != overall || cs != ready {
-				continue
-			}
-			found = true
-			pos = (b.Op == token.EQL) == a.Pos
+			own = append(own, atomsOf(g))
 		}
-		switch {
-		case !found:
-			okCode = false
-			why = fmt.Sprintf("status %d is not selected by comparing the overall entry of the snapshot with the ready constant", code)
-		case code == 200 && pos:
-			n200++
-		case code == 503 && !pos:
-			n503++
-		default:
-			okCode = false
-			why = fmt.Sprintf("status %d on the wrong edge of the overall test", code)
+		for _, alt := range condAlts(cl.Call.Args[0], 0) {
+			if alt.K == nil || alt.K.Value == nil || alt.K.Value.Kind() != constant.Int {
+				okCode = false
+				why = "status code is computed"
+				continue
+			}
+			code := alt.K.Int64()
+			// condition: lookup(m, overall) == ready
+			var pos, found bool
+			for _, a := range append(append([]Atom{}, own...), alt.Conds...) {
+				b, ok := a.V.(*ssa.BinOp)
+				if !ok || (b.Op != token.EQL && b.Op != token.NEQ) {
+					continue
+				}
+				var lk *ssa.Lookup
+				var cst ssa.Value
+				if l, ok := b.X.(*ssa.Lookup); ok {
+					lk, cst = l, b.Y
+				} else if l, ok := b.Y.(*ssa.Lookup); ok {
+					lk, cst = l, b.X
+				}
+				if lk == nil || lk.X != ssa.Value(m) {
+					continue
+				}
+				ks, _ := constStr(lk.Index)
+				cs, _ := constStr(cst)
+				if ks != overall || cs != ready {
+					continue
+				}
+				found = true
+				pos = (b.Op == token.EQL) == a.Pos
+			}
+			switch {
+			case !found:
+				okCode = false
+				why = fmt.Sprintf("status %d is not selected by comparing the overall entry of the snapshot with the ready constant", code)
+			case code == 200 && pos:
+				n200++
+			case code == 503 && !pos:
+				n503++
+			default:
+				okCode = false
+				why = fmt.Sprintf("status %d on the wrong edge of the overall test", code)
+			}
 		}
 	})
 	c.Cond(okCode && n200 == 1 && n503 == 1, "status-code-from-same-map", name+": 200/503 from the snapshot's overall entry", p.Pos(h.Pos()), "200 iff snapshot[overall] == ok, else 503", "the status code is not derived from the same snapshot as the body: "+why)
